@@ -3,6 +3,7 @@
   and no result ever carries both a value and an error, or neither.
 -/
 import Edn.Proofs.Reject
+import Edn.Proofs.NumberSound
 
 namespace Edn.Properties.C10
 open Edn.Model Edn.Proofs
@@ -89,6 +90,23 @@ theorem tag_at_end_of_input (ctx : Ctx) (f d : Nat) (dm : Bool) (start : Nat) (c
     readTagged ctx (f + 1) d dm start { rest := [], calls := cl } =
       .err (mkErr .unexpectedEof (some start) (some 0)) { rest := [], calls := cl } :=
   tag_at_eof ctx f d dm start cl
+
+/-- core configuration: a digit-initial (or sign-digit-initial) text no prefix of which is a core
+    number token followed by a terminator is *rejected* by the number reader - never read as
+    something else (hex, octal, radix, ratio and `_` separators are all outside `CoreNum`) -/
+theorem core_number_outside_grammar_rejected (s : Bytes)
+    (hstart : ∃ c t, s = c :: t ∧ (is09 c = true ∨ ((c = 0x2B ∨ c = 0x2D) ∧ ∃ nx t', t = nx :: t' ∧ is09 nx = true)))
+    (hnot : ¬ ∃ tok rest v, s = tok ++ rest ∧ Edn.Spec.CoreNum Cfg.core tok v ∧ Edn.Spec.TermStart rest) :
+    ∃ cur, readNumber Cfg.core s = .err cur := by
+  cases h : readNumber Cfg.core s with
+  | err cur => exact ⟨cur, rfl⟩
+  | ok v rest =>
+    obtain ⟨tok, h1, h2, h3⟩ := Edn.Proofs.readNumber_core_sound s rest v hstart h
+    exact absurd ⟨tok, rest, v, h1, h2, h3⟩ hnot
+
+example : (match readNumber Cfg.core "0x1F".toUTF8.toList with | .err _ => true | .ok _ _ => false) = true := by decide +kernel
+example : (match readNumber Cfg.core "1/2".toUTF8.toList with | .err _ => true | .ok _ _ => false) = true := by decide +kernel
+example : (match readNumber Cfg.core "007".toUTF8.toList with | .err _ => true | .ok _ _ => false) = true := by decide +kernel
 
 /-- non-vacuity: `[1 2` is an unterminated collection, `{:a}` an odd map, `)` a stray closer -/
 example : (match (read Cfg.core {} "[1 2".toUTF8.toList).out with | .error c _ _ => c == .unterminatedCollection | _ => false) = true := by decide +kernel
